@@ -453,23 +453,17 @@ impl AppConfig {
                     (self.replication.factor as usize).min(node_count);
                 let mut assigned = HashSet::new();
 
-                let buckets_per_node = self.bucket.count as usize / node_count;
-                let extra_buckets = self.bucket.count as usize % node_count;
+                // Must agree with the cluster topology (`TopologyManager`), which
+                // routes bucket `b` to node `b % node_count` and the
+                // `effective_replication_factor - 1` nodes following it.
+                for bucket_id in 0..self.bucket.count {
+                    let primary_node = bucket_id as usize % node_count;
 
-                // For each replica position this node participates in
-                for replica_offset in 0..effective_replication_factor {
-                    // Which node position are we a replica for?
-                    let primary_node =
-                        (self.node.index as usize + node_count - replica_offset) % node_count;
-
-                    // Calculate that node's bucket range
-                    let start = primary_node * buckets_per_node + primary_node.min(extra_buckets);
-                    let extra = if primary_node < extra_buckets { 1 } else { 0 };
-                    let count = buckets_per_node + extra;
-
-                    // Add all buckets in that range
-                    for bucket_id in start..(start + count) {
-                        assigned.insert(bucket_id.try_into().unwrap());
+                    // How many positions after the primary node is this node?
+                    let replica_offset =
+                        (self.node.index as usize + node_count - primary_node) % node_count;
+                    if replica_offset < effective_replication_factor {
+                        assigned.insert(bucket_id);
                     }
                 }
 
